@@ -213,7 +213,7 @@ theorem stepm_scale {r : Nat} {g : Nat → Nat} {s : Shape} (stk tr) :
 theorem stepm_popCropSame {g t : Nat → Nat} {s : Shape} (rest tr) (h : ∀ n ∈ s, cropTo (t n) (g n) = t n) :
     step .popCropSame ⟨s.map g, s.map t :: rest, tr⟩ = .ok ⟨s.map t, rest, tr⟩ := by
   simp only [step]
-  rw [zipWith_map_map, if_pos (List.map_congr_left h)]
+  rw [zipWith_map_map, if_pos ⟨by simp, List.map_congr_left h⟩]
 theorem stepm_popCrop {g t : Nat → Nat} {s : Shape} (rest tr) :
     step .popCrop ⟨s.map g, s.map t :: rest, tr⟩ = .ok ⟨s.map (fun n => cropTo (t n) (g n)), rest, tr⟩ := by
   simp only [step]
@@ -245,5 +245,28 @@ theorem mult16_eq (n : Nat) : mult16 n = 16 * ((n + 15) / 16) := by
   split
   · subst_vars; rfl
   · rw [lor15]; omega
+
+/-! ## composite stack operations = their fine-grained expansion -/
+
+theorem step_expand1 (op : Op) (st : State) : run (expand1 op) st = step op st := by
+  cases op <;> simp only [expand1, run] <;> try (cases step _ st <;> rfl)
+  all_goals
+    obtain ⟨cur, stack, trace⟩ := st
+    cases stack with
+    | nil => simp [step, run]
+    | cons t rest =>
+      simp only [step]
+      split <;> simp_all [run, step]
+
+theorem run_expand (p : List Op) (st : State) : run (expand p) st = run p st := by
+  induction p generalizing st with
+  | nil => rfl
+  | cons op ops ih =>
+    simp only [expand, List.flatMap_cons] at *
+    rw [run_append, step_expand1]
+    simp only [run]
+    cases step op st with
+    | ok s => simp [ih]
+    | error e => simp
 
 end DirectVerif.C17L
